@@ -10,6 +10,7 @@ package main
 import (
 	"fmt"
 	"go/ast"
+	"math/big"
 	"sort"
 	"strconv"
 	"strings"
@@ -238,6 +239,34 @@ func init() {
 	// numcont(q, b): q is a number state and b continues the number
 	specFns["numcont"] = func(e *Env, a []TV, n *ast.CallExpr) TV {
 		return TV{V: App("spec.numcont", BoolSort, argTerm(e, a[0], n), argByte(e, a[1], n))}
+	}
+	// digrun(data, k): index of the first non-digit byte at or after k (len if none)
+	specFns["digrun"] = func(e *Env, a []TV, n *ast.CallExpr) TV {
+		arr, off, ln := sliceArgs(e, a[0], n)
+		k := Add(off, Resize(argTerm(e, a[1], n), 64, true))
+		return TV{V: Sub(digrunTerm(e, arr, k, Add(off, ln)), off), Signed: true}
+	}
+	// DV(data, k, e): decimal value of data[k:e] as a 128-bit number saturating at 2^64
+	specFns["DV"] = func(e *Env, a []TV, n *ast.CallExpr) TV {
+		arr, off, ln := sliceArgs(e, a[0], n)
+		k := Add(off, Resize(argTerm(e, a[1], n), 64, true))
+		x := Add(off, Resize(argTerm(e, a[2], n), 64, true))
+		return TV{V: dvTerm(e, arr, k, x, Add(off, ln), false)}
+	}
+	// DVrun(data, k): DV over the maximal digit run starting at k
+	specFns["DVrun"] = func(e *Env, a []TV, n *ast.CallExpr) TV {
+		arr, off, ln := sliceArgs(e, a[0], n)
+		k := Add(off, Resize(argTerm(e, a[1], n), 64, true))
+		end := Add(off, ln)
+		return TV{V: dvTerm(e, arr, k, digrunTerm(e, arr, k, end), end, true)}
+	}
+	specFns["pow10"] = func(e *Env, a []TV, n *ast.CallExpr) TV {
+		x := Resize(argTerm(e, a[0], n), 64, true)
+		res := BVC(128, new(big.Int).Exp(big.NewInt(10), big.NewInt(30), nil))
+		for i := 29; i >= 0; i-- {
+			res = Ite(Eq(x, I64(int64(i))), BVC(128, new(big.Int).Exp(big.NewInt(10), big.NewInt(int64(i)), nil)), res)
+		}
+		return TV{V: res}
 	}
 	// wsrun(data, k): index of the first non-whitespace byte at or after k (len if none)
 	specFns["wsrun"] = func(e *Env, a []TV, n *ast.CallExpr) TV {
@@ -547,6 +576,37 @@ func (s *Sim) describe() map[string]interface{} {
 	out["sample_cut_invariants"] = sample
 	out["spec_states"] = len(s.tab.states)
 	return out
+}
+
+func isDigitTerm(b *Term) *Term { return byteRange(b, '0', '9') }
+
+func digrunTerm(e *Env, arr, k, end *Term) *Term {
+	r := App("digrun$"+arr.Name, BV(64), k, end)
+	e.addHyp(Implies(And(Sle(I64(0), k), Sle(k, end)), And(Sle(k, r), Sle(r, end), Or(Eq(r, end), Not(isDigitTerm(Select(arr, r)))))))
+	bv := Fresh("q.d", BV(64))
+	e.addQ(&QFact{Guard: And(Sle(I64(0), k), Sle(k, end)), BV: bv, Lo: k, Hi: r, Body: isDigitTerm(Select(arr, bv)), Name: "digrun", Seeds: []*Term{r}})
+	return r
+}
+
+var satLimit = new(big.Int).Lsh(big.NewInt(1), 64)
+
+// dvTerm: DV(k, x) with its defining axioms (base, step at every index read) and, for the value
+// over the whole digit run, the stickiness lemma instance schema (proved as spec/DVsticky/*).
+func dvTerm(e *Env, arr, k, x, end *Term, run bool) *Term {
+	name := "DV$" + arr.Name
+	dv := func(a *Term) *Term { return App(name, BV(128), k, a) }
+	sat := BVC(128, satLimit)
+	e.addHyp(Eq(dv(k), BVI(128, 0)))
+	bv := Fresh("q.e", BV(64))
+	d := ZeroExt(120, Sub(Select(arr, bv), BVI(8, '0')))
+	nx := Add(Mul(dv(bv), BVI(128, 10)), d)
+	step := Implies(And(Sle(k, bv), isDigitTerm(Select(arr, bv))), Eq(dv(Add(bv, I64(1))), Ite(Ule(sat, nx), sat, nx)))
+	e.addQ(&QFact{Guard: True, BV: bv, Body: And(step, Ule(dv(bv), sat)), Name: "DVstep", OnlySelect: true, SelectRoot: arr})
+	if run {
+		av := Fresh("q.a", BV(64))
+		e.addQ(&QFact{Guard: And(Sle(k, av), Sle(av, x), Eq(dv(av), sat)), BV: av, Body: Eq(dv(x), sat), Name: "DVsticky"})
+	}
+	return dv(x)
 }
 
 // qnamed: disjunction "x is one of the spec states whose name matches one of the patterns".
